@@ -22,6 +22,27 @@ func padVarint(b []byte) []byte {
 	return append(out, 0x00)
 }
 
+// padLength re-encodes the length prefix of a length-delimited payload (length varint + body) with one padding byte.
+func padLength(p []byte) []byte {
+	_, n := protowire.ConsumeVarint(p)
+	out := padVarint(p[:n])
+	return append(out, p[n:]...)
+}
+
+// longPayload: a string/bytes payload of n bytes (n=300: a two-byte length whose first byte carries data bits and
+// whose second byte is even, so a decoder that mishandles the continuation bit reads a different length).
+func longPayload(n int) []byte {
+	body := make([]byte, n)
+	for i := range body {
+		body[i] = byte('a' + i%26)
+	}
+	return protowire.AppendBytes(nil, body)
+}
+
+func isLenKind(k protoreflect.Kind) bool {
+	return k == protoreflect.StringKind || k == protoreflect.BytesKind
+}
+
 func tagBytes(num protowire.Number, wt protowire.Type) []byte {
 	return protowire.AppendTag(nil, num, wt)
 }
@@ -236,6 +257,22 @@ func RecordAlphabet(md protoreflect.MessageDescriptor, rich bool) []Rec {
 					add(fd, "entry-wide-value", "{k1:"+wl[2]+"}", entry(K(k1), V(wp[2])))
 				}
 			}
+			// length prefixes inside the entry: padded, and long enough to need two bytes
+			if isLenKind(kfd.Kind()) {
+				add(fd, "entry-padded-key-length", "{k1(padded-length):v1}", entry(K(padLength(k1)), V(v1)))
+				add(fd, "entry-long-key", "{k(300 bytes):v1}", entry(K(longPayload(300)), V(v1)))
+			}
+			if isLenKind(vfd.Kind()) || vfd.Kind() == protoreflect.MessageKind {
+				add(fd, "entry-padded-value-length", "{k1:v1(padded-length)}", entry(K(k1), V(padLength(v1))))
+			}
+			if isLenKind(vfd.Kind()) {
+				add(fd, "entry-long-value", "{k1:v(300 bytes)}", entry(K(k1), V(longPayload(300))))
+			}
+			{
+				body := append(K(k1), V(v1)...)
+				rec := append(tagBytes(num, protowire.BytesType), padVarint(protowire.AppendVarint(nil, uint64(len(body))))...)
+				add(fd, "entry-padded-length", "{k1:v1}(padded-length)", append(rec, body...))
+			}
 			if rich {
 				for j := range kp {
 					add(fd, "entry", fmt.Sprintf("{%s:v1}", kl[j]), entry(K(kp[j]), V(v1)))
@@ -249,11 +286,16 @@ func RecordAlphabet(md protoreflect.MessageDescriptor, rich bool) []Rec {
 			for j := range es {
 				add(fd, "element", ls[j], protowire.AppendBytes(tagBytes(num, protowire.BytesType), es[j]))
 			}
+			add(fd, "element-padded-length", ls[len(es)-1]+"(padded-length)", append(tagBytes(num, protowire.BytesType), padLength(protowire.AppendBytes(nil, es[len(es)-1]))...))
 		case fd.IsList():
 			wt := wireTypeOf(fd.Kind())
 			ls, ps := scalarPayloads(fd, 3)
 			for j := range ps {
 				add(fd, "unpacked", ls[j], append(tagBytes(num, wt), ps[j]...))
+			}
+			if isLenKind(fd.Kind()) {
+				add(fd, "unpacked-padded-length", ls[len(ls)-1]+"(padded-length)", append(tagBytes(num, wt), padLength(ps[len(ps)-1])...))
+				add(fd, "unpacked-long", "(300 bytes)", append(tagBytes(num, wt), longPayload(300)...))
 			}
 			if wt != protowire.BytesType {
 				// packed form, accepted whatever the declaration says
@@ -285,6 +327,7 @@ func RecordAlphabet(md protoreflect.MessageDescriptor, rich bool) []Rec {
 				rec := append(padVarint(tagBytes(num, protowire.BytesType)), protowire.AppendBytes(nil, es[len(es)-1])...)
 				add(fd, "submessage-padded-tag", ls[len(es)-1]+"(padded-tag)", rec)
 			}
+			add(fd, "submessage-padded-length", ls[len(es)-1]+"(padded-length)", append(tagBytes(num, protowire.BytesType), padLength(protowire.AppendBytes(nil, es[len(es)-1]))...))
 		default:
 			wt := wireTypeOf(fd.Kind())
 			ls, ps := scalarPayloads(fd, 3)
@@ -292,6 +335,10 @@ func RecordAlphabet(md protoreflect.MessageDescriptor, rich bool) []Rec {
 				add(fd, "value", ls[j], append(tagBytes(num, wt), ps[j]...))
 			}
 			add(fd, "value-padded-tag", ls[len(ls)-1]+"(padded-tag)", append(padVarint(tagBytes(num, wt)), ps[len(ps)-1]...))
+			if isLenKind(fd.Kind()) {
+				add(fd, "value-padded-length", ls[len(ls)-1]+"(padded-length)", append(tagBytes(num, wt), padLength(ps[len(ps)-1])...))
+				add(fd, "value-long", "(300 bytes)", append(tagBytes(num, wt), longPayload(300)...))
+			}
 			wl, wp := wideVarints(fd)
 			for j := range wp {
 				add(fd, "value-wide-varint", wl[j], append(tagBytes(num, wt), wp[j]...))
